@@ -140,7 +140,8 @@ def run(ctx):
         if d is None:
             continue
         locks = gcalls(F, d, r"sync::(poison::)?mutex::Mutex.*::lock$|Mutex::lock$")
-        setlen = gcalls(F, d, r"fs::File::set_len$")
+        # the truncation may sit in a private helper of the store (`inner.cut_tail(from)`): the call that reaches set_len is the site
+        setlen = [(x, bi, t) for x in F.group_bodies(d) for (bi, t) in x.calls() if call_reaches_rx(F, t, r"fs::File::set_len$", 2)]
         writes = [x for x in F.group_bodies(d) for x in [(x, bi, t) for (bi, t) in x.calls() if call_reaches_rx(F, t, r"io::Write::write_all$", 3)]]
         dbw = gcalls(F, d, r"DBCommon.*::(write|write_opt)$")
         dels = gcalls(F, d, r"WriteBatch\w*::(delete_range_cf|delete_cf)$")
